@@ -78,6 +78,31 @@ type RunAppRef struct {
 
 func (r *RunAppRef) Run() error { return run(r.B) }
 
+// RunDeco / runDecoPP: a plain post-processor decorates some runners after initialization (timing, tracing, a guard):
+// the decorator is the runner the container holds from then on, so it is the decorator that is started.
+type RunDeco struct {
+	Target definition.ApplicationRunner
+	B      *zoo.Beh
+}
+
+func (d *RunDeco) Run() error {
+	d.B.Log.Add(zoo.Event{Kind: "wrun", ID: d.B.ID})
+	return d.Target.Run()
+}
+
+type runDecoPP struct{ names map[string]*zoo.Beh }
+
+func (*runDecoPP) Naming() string                                               { return "run-deco-pp" }
+func (*runDecoPP) PostProcessBeforeInitialization(c any, n string) (any, error) { return c, nil }
+func (p *runDecoPP) PostProcessAfterInitialization(c any, n string) (any, error) {
+	if b, ok := p.names[n]; ok {
+		if r, isRunner := c.(definition.ApplicationRunner); isRunner {
+			return &RunDeco{Target: r, B: b}, nil
+		}
+	}
+	return c, nil
+}
+
 // causeless: a legal error value whose Cause() is nil (e.g. an OpError without inner error).
 type causeless struct{ op string }
 
@@ -149,6 +174,7 @@ func TestRunners(t *testing.T) {
 		}
 		ids := make([]int, nr)
 		initFaults := 0
+		decorated := map[string]*zoo.Beh{}
 		for i := range specs {
 			specs[i].Class = rapid.IntRange(0, 8).Draw(t, "class")
 			if specs[i].Class < 2 {
@@ -171,6 +197,9 @@ func TestRunners(t *testing.T) {
 				c = &RunOO{zoo.Core{B: b}}
 			case 2:
 				c = &RunNO{zoo.Core{B: b}}
+				if rapid.IntRange(0, 2).Draw(t, "decorated") == 0 {
+					decorated[b.Alias] = b
+				}
 			case 4:
 				c = &RunPP{zoo.Core{B: b}}
 			case 5:
@@ -212,6 +241,9 @@ func TestRunners(t *testing.T) {
 				}
 			}
 		}
+		if len(decorated) > 0 {
+			in.Extra = append(in.Extra, &runDecoPP{names: decorated})
+		}
 		in.Extra = rapid.Permutation(in.Extra).Draw(t, "extraorder")
 		nobs := rapid.IntRange(0, 2).Draw(t, "nobs")
 		veto := ""
@@ -250,8 +282,17 @@ func TestRunners(t *testing.T) {
 		}
 		var seq []int
 		firstRun := -1
+		wruns := map[int]int{}
 		for i, e := range ev {
+			if e.Kind == "wrun" {
+				wruns[e.ID]++
+			}
 			if e.Kind == "run" {
+				for _, b := range decorated {
+					if b.ID == e.ID && wruns[e.ID] != 1 {
+						t.Fatalf("C13: runner %q was decorated by a post-processor after its initialization - the decorator is the runner the container holds - yet the undecorated object was started (decorator started %d times before)\n%s", b.Alias, wruns[e.ID], desc)
+					}
+				}
 				if firstRun < 0 {
 					firstRun = i
 				}
